@@ -79,6 +79,7 @@ type WSpec struct {
 	Direct   string     `json:"direct,omitempty"`   // narrow-seam driver instead of a workflow (direct.go)
 	MkDirs   []string   `json:"mkdirs,omitempty"` // directories created before the run
 	PreFiles map[string]string `json:"prefiles,omitempty"` // other regular files present before the run
+	Symlinks map[string]string `json:"symlinks,omitempty"` // symbolic links (name -> target) present before the run
 	PartialUnits  []string          `json:"partial_units,omitempty"`  // C02 histories: also pre-create only these out-ports of a multi-output task
 	SourceContent map[string]string `json:"source_content,omitempty"` // source files whose content is not their own path
 	Sources  []string   `json:"-"`                  // files created before the run (content = path)
